@@ -2072,9 +2072,8 @@ def _ufunc_logical_skipna(
     if ufunc != np.all and ufunc != np.any:
         raise NotImplementedError(f'unsupported ufunc ({ufunc}); use np.all or np.any')
 
-    if len(array) == 0:
-        # TODO: handle if this is ndim == 2 and has no length
-        # any() of an empty array is False
+    if array.ndim == 1 and len(array) == 0:
+        # any() of an empty array is False; a 2D array with no length reduces to an array below
         return ufunc == np.all
 
     kind = array.dtype.kind
